@@ -98,6 +98,14 @@ class ApproxTopKPlugin(PrimitiveLeafPlugin):
                 f"approx_top_k reduction_dimension {axis} out of range for rank {rank}"
             )
         largest = 1 if bool(params.get("is_max_k", True)) else 0
+        out_shape = tuple(
+            getattr(getattr(values_var, "aval", None), "shape", ()) or ()
+        )
+        if rank and len(out_shape) == rank and out_shape[axis] != k:
+            # aggregate_to_topk=False: JAX returns more than k candidates
+            raise NotImplementedError(
+                "approx_top_k with aggregate_to_topk=False is not supported"
+            )
 
         k_val = _const_i64(ctx, np.asarray([k], dtype=np.int64), "approx_topk_k")
         values, indices = cast(
